@@ -121,8 +121,12 @@ def run(replay=None):
     cases, truth = [], {}
     classes = {}
     for k, (n, p, m, P, c, A, b, G, h, lb, ub, kind) in enumerate(raw):
-        if rng.random() < 0.3:
-            # an equivalent, badly scaled problem: x_j = s_j x'_j (the class is invariant; it is re-decided exactly below)
+        cls0, _ = classify_checked([[F(v) for v in r] for r in P], [F(v) for v in c], A, b, G, h,
+                                   [None if v is None else F(v) for v in lb], [None if v is None else F(v) for v in ub])
+        if cls0 == "optimal" and rng.random() < 0.4:
+            # an equivalent, badly scaled problem: x_j = s_j x'_j (the class is invariant; it is re-decided exactly below). The random
+            # part scales only problems that HAVE a solution (no false infeasibility verdict under scaling); badly scaled infeasible /
+            # unbounded problems are a FIXED corpus below, because some of them hit the known finding F20 (listed input by input).
             sc = [rng.choice([F(1), F(100), F(1, 32), F(64)]) for _ in range(n)]
             P = [[F(P[i][j]) * sc[i] * sc[j] for j in range(n)] for i in range(n)]
             c = [F(c[j]) * sc[j] for j in range(n)]
@@ -207,6 +211,40 @@ def run(replay=None):
             cases.append({"name": name, "lines": L, "meta": {"be": be, "kind": kind, "class": cls, "settings": {"check_duality_gap": 0},
                                                              "history": "direct", "fixed": k}})
             truth[name] = (cls, kind)
+    # fixed corpus 2 (independent of VERIF_SEED): column-scaled infeasible / unbounded problems under DEFAULT settings, both
+    # preconditioner kinds. On some of them the unchanged solver answers SOLVED at |x| ~ 1e13, where the dual residual P x + c
+    # evaluates to exactly 0 in double precision by cancellation (known finding F20, listed input by input in known_findings.txt).
+    rngS = random.Random(20261001)
+    scaled = [(2, 0, 0, [[10000, -6400], [-6400, 4096]], [0, 64], [], [], [], [], [None, None], [None, None], "F20-first-seen", "unbounded")]
+    pool = [q for q in grid_problems(rngS, 600, False)]
+    got = 0
+    for (n, p, m, P, c, A, b, G, h, lb, ub, kind) in pool:
+        cls, _ = classify_checked([[F(v) for v in r] for r in P], [F(v) for v in c], A, b, G, h,
+                                  [None if v is None else F(v) for v in lb], [None if v is None else F(v) for v in ub])
+        if cls == "optimal":
+            continue
+        sc = [[F(100), F(64)], [F(1, 32), F(100)], [F(64), F(1)], [F(100), F(100)]][got % 4][:n] + [F(1)] * max(0, n - 2)
+        P2 = [[F(P[i][j]) * sc[i] * sc[j] for j in range(n)] for i in range(n)]
+        c2 = [F(c[j]) * sc[j] for j in range(n)]
+        A2 = [[F(A[i][j]) * sc[j] for j in range(n)] for i in range(p)]
+        G2 = [[F(G[i][j]) * sc[j] for j in range(n)] for i in range(m)]
+        lb2 = [None if v is None else F(v) / sc[j] for j, v in enumerate(lb)]
+        ub2 = [None if v is None else F(v) / sc[j] for j, v in enumerate(ub)]
+        cls2, _ = classify_checked(P2, c2, A2, b, G2, h, lb2, ub2)
+        assert cls2 == cls, "internal: column scaling changed the exact class"
+        scaled.append((n, p, m, P2, c2, A2, b, G2, h, lb2, ub2, kind + "+colscaled", cls))
+        got += 1
+        if got >= 40:
+            break
+    for k, (n, p, m, P, c, A, b, G, h, lb, ub, kind, cls) in enumerate(scaled):
+        pr = problem_from_int(n, p, m, P, c, A, b, G, h, lb, ub)
+        for be in range(5):
+            for pk in (0, 1):
+                name = f"S{k}_{be}_{pk}"
+                L = gen_dbl.case_lines(be, pk, {}, ["d.setup " + pr.args(False), "d.solve", "d.result"])
+                cases.append({"name": name, "lines": L, "meta": {"be": be, "kind": kind, "class": cls, "settings": {}, "history": "direct",
+                                                                 "scaled": k, "pk": pk}})
+                truth[name] = (cls, kind)
     impl, lost = run_chunks([exe], cases, 12, 30)
     chk.cov["evaluations"] = len(cases)
     chk.cov["ground_truth_classes"] = classes
@@ -226,7 +264,10 @@ def run(replay=None):
             bad = f"{'PRIMAL' if st == -2 else 'DUAL'}_INFEASIBLE reported for a problem that has an optimal solution (exact classification)"
         elif cls in ("infeasible", "unbounded") and st == 1:
             bad = f"SOLVED reported for a problem that is {cls} (exact classification, integer data: clear margin)"
-        if bad and "fixed" in c["meta"]:
+        if bad and "scaled" in c["meta"]:
+            chk.violation(f"impl:verdict:scaled:S{c['meta']['scaled']}:be{c['meta']['be']}:pk{c['meta']['pk']}", bad + " (fixed corpus of column-scaled "
+                          f"problems, default settings, problem S{c['meta']['scaled']}, {kind})\n\ninput:\n" + case_text(c))
+        elif bad and "fixed" in c["meta"]:
             chk.violation(f"impl:verdict:gapoff:F{c['meta']['fixed']}:be{c['meta']['be']}", bad + " with check_duality_gap = false "
                           f"(fixed corpus problem F{c['meta']['fixed']}, {kind})\n\ninput:\n" + case_text(c))
         elif bad:
@@ -241,7 +282,8 @@ def run(replay=None):
                                          "h_row_histories": sum(1 for c in cases if c["meta"]["history"] == "h-row-history"),
                                          "bounds_histories": sum(1 for c in cases if c["meta"]["history"] == "bounds-history"),
                                          "P_update_histories": sum(1 for c in cases if c["meta"]["history"] == "P-history"),
-                                         "column_scaled_problems": sum(1 for c in cases if "colscaled" in c["meta"]["kind"]) // 5}
+                                         "column_scaled_problems": sum(1 for c in cases if "colscaled" in c["meta"]["kind"] and "scaled" not in c["meta"]) // 5,
+                                         "fixed_corpus_column_scaled_infeasible_unbounded": sum(1 for c in cases if "scaled" in c["meta"])}
     chk.cov["rule"] = ("integer grid (n<=2, entries -1/0/1, all block presences, LPs, singular P) + constructed degenerate strictly convex, "
                        "Farkas-infeasible (rows, crossing bounds, bounds against an equality/inequality) and recession-unbounded problems, each on "
                        "all five back ends (default and looser tolerances) and, for a quarter of the problems with inequalities, reached "
